@@ -98,19 +98,27 @@ Definition xmask (a : xval) (m : list bool) : xval :=
   | XBad => XBad
   end.
 
-(** [old * to_revert + cur * ~to_revert]  (state.py:568-570) *)
-Definition xmix (m : list bool) (old cur : xval) : xval :=
-  xadd (xmask old m) (xmask cur (map negb m)).
+(** [assert old_v.shape == cur_v.shape] (state.py:563) *)
+Definition same_shape (a b : xval) : bool :=
+  match a, b with
+  | XS _, XS _ => true
+  | XP l1, XP l2 => length l1 =? length l2
+  | _, _ => false
+  end.
 
-(** the planned repair: [torch.where(to_revert, old, cur)] *)
-Definition xwhere (m : list bool) (old cur : xval) : xval :=
+Definition not_bad (a : xval) : option xval := if is_bad a then None else Some a.
+
+(** [old * to_revert + cur * ~to_revert]  (state.py:568-570); None = AssertionError / broadcast error *)
+Definition xmix (m : list bool) (old cur : xval) : option xval :=
+  if same_shape old cur then not_bad (xadd (xmask old m) (xmask cur (map negb m))) else None.
+
+(** the planned repair: [torch.where(to_revert, old, cur)] (same assertion, same broadcasting) *)
+Definition xwhere (m : list bool) (old cur : xval) : option xval :=
   let pick o c := map2 (fun (b : bool) (oc : atom * atom) => if b then fst oc else snd oc) m (combine o c) in
   match old, cur with
-  | XS o, XS c => XP (map (fun b : bool => if b then o else c) m)
-  | XP o, XP c => if (length o =? length m) && (length c =? length m) then XP (pick o c) else XBad
-  | XS o, XP c => if length c =? length m then XP (pick (map (fun _ => o) c) c) else XBad
-  | XP o, XS c => if length o =? length m then XP (pick o (map (fun _ => c) o)) else XBad
-  | _, _ => XBad
+  | XS o, XS c => Some (XP (map (fun b : bool => if b then o else c) m))
+  | XP o, XP c => if (length o =? length m) && (length c =? length m) then Some (XP (pick o c)) else None
+  | _, _ => None
   end.
 
 Fixpoint list_upd {A} (l : list A) (j : nat) (f : A -> A) : option (list A) :=
@@ -223,20 +231,20 @@ Definition out_eqb (a b : out xval) : bool :=
   end.
 
 (** ** decidable discipline (the hypothesis of the theorems, computed on the model's own state) *)
-Definition mask_ok_b (g : graph xval) (st : state xval) : bool :=
+Definition mask_ok_b (g : graph xval) (sm : sem xval (list bool) nat) (m : list bool) (st : state xval) : bool :=
   match fork st with
   | None => true
-  | Some fk => forallb (fun co => match snd co with
-                                   | Some _ => negb (is_some (values st (fst co))) || ind_axis g (fst co)
-                                   | None => true end) fk
+  | Some fk => forallb (fun co => match snd co, values st (fst co) with
+                                   | Some o, Some cur => ind_axis g (fst co) && is_some (mix sm m o cur)
+                                   | _, _ => true end) fk
   end.
 
 Definition unforked_ok_b (chk : bool) (st : state xval) : bool :=
   negb chk || is_some (mode st) || negb (is_some (fork st)).
 
-Definition op_ok_b (g : graph xval) (chk : bool) (s : store xval) (o : op xval (list bool) nat) : bool :=
+Definition op_ok_b (g : graph xval) (sm : sem xval (list bool) nat) (chk : bool) (s : store xval) (o : op xval (list bool) nat) : bool :=
   match o with
-  | RevertMask k _ => match nth_error s k with Some st => mask_ok_b g st | None => true end
+  | RevertMask k m => match nth_error s k with Some st => mask_ok_b g sm m st | None => true end
   | Set_ k i _ | Put k i _ _ _ =>
       match nth_error s k with
       | Some st => negb (i <? gn g) || negb (settable g i) || unforked_ok_b chk st
@@ -255,7 +263,7 @@ Fixpoint agree (g : graph xval) (sm : sem xval (list bool) nat) (fx : bool) (s :
   | [] => true
   | (o, expected, ok) :: r =>
       let '(s', x) := step g sm fx s o in
-      out_eqb x expected && Bool.eqb (op_ok_b g (negb fx) s o) ok && agree g sm fx s' r
+      out_eqb x expected && Bool.eqb (op_ok_b g sm (negb fx) s o) ok && agree g sm fx s' r
   end.
 
 Definition check_case (fx : bool) (c : list nspec * list (xop * out xval * bool)) : bool :=
